@@ -398,6 +398,8 @@ pub struct Decoded {
     pub stray_msgs: usize,
     /// bytes at the end of the stream that do not form a whole packet
     pub trailing_bytes: usize,
+    /// `problem` is only "the output ends early" (a prefix of a conformant stream), not a malformed packet
+    pub truncated_only: bool,
 }
 
 pub fn decode_output(out: &[u8], kinds: &[ReplyKind]) -> Decoded {
@@ -412,11 +414,15 @@ pub fn decode_output(out: &[u8], kinds: &[ReplyKind]) -> Decoded {
         replies: Vec::new(),
         problem: None,
         stray_msgs: 0,
+        truncated_only: false,
     };
     if used_phys != d.phys.len() {
         d.problem = Some(format!("{} trailing 0xFFFFFF-byte fragments without a terminating packet", d.phys.len() - used_phys));
     }
     if d.msgs.is_empty() {
+        if d.problem.is_none() {
+            d.truncated_only = true;
+        }
         d.problem.get_or_insert("no greeting".into());
         return d;
     }
@@ -434,6 +440,9 @@ pub fn decode_output(out: &[u8], kinds: &[ReplyKind]) -> Decoded {
             d.auth = Some(r);
         }
         Err(Need::More) => {
+            if d.problem.is_none() {
+                d.truncated_only = true;
+            }
             d.problem.get_or_insert("auth reply: missing".into());
             return d;
         }
@@ -449,6 +458,9 @@ pub fn decode_output(out: &[u8], kinds: &[ReplyKind]) -> Decoded {
                 d.replies.push(r);
             }
             Err(Need::More) => {
+                if d.problem.is_none() {
+                    d.truncated_only = true;
+                }
                 d.problem.get_or_insert(format!("reply to command {}: incomplete or missing (output ends)", i));
                 break;
             }
